@@ -334,6 +334,8 @@ type c16BuilderCase struct {
 	ConcurrentReqBody bool   `json:"request_body_read_concurrently"`
 	TransportErrKind int  `json:"transport_error_kind"` // 0 plain, 1 wraps context.DeadlineExceeded, 2 wraps context.Canceled, 3 os.ErrDeadlineExceeded
 	LongStream       bool `json:"long_stream"`
+	NameTwice        bool `json:"test_name_header_sent_twice,omitempty"`
+	NoBody           bool `json:"response_body_is_http_NoBody,omitempty"`
 }
 
 type completion struct {
@@ -444,6 +446,18 @@ func c16BuilderBody(tape *simrt.Tape, o simwork.Opts, res *simwork.Result) {
 	req.Header.Set("Content-Type", "application/grpc")
 	if cs.Named {
 		req.Header.Set("X-Test-Case-Name", "Suite/op")
+		if tape.Bool(1, 6, "name-twice") {
+			// the field line is there twice (a test case that sets the header itself and
+			// the runner's own copy): it is still this test's operation
+			req.Header.Add("X-Test-Case-Name", "Suite/op")
+			cs.NameTwice = true
+			res.Probes["test-name-header-twice"]++
+		}
+	}
+	if cs.Side == "client" && len(respBody) == 0 && respEnd == simio.EndEOF && tape.Bool(1, 2, "nobody") {
+		// a response without content: net/http hands out http.NoBody (204, 304, HEAD, Content-Length: 0)
+		cs.NoBody = true
+		res.Probes["response-body-is-NoBody"]++
 	}
 	reqReader := &simio.Reader{Segs: reqSegs, End: reqEnd}
 	req.Body = io.NopCloser(reqReader)
@@ -500,6 +514,10 @@ func c16BuilderBody(tape *simrt.Tape, o simwork.Opts, res *simwork.Result) {
 					return nil, os.ErrDeadlineExceeded
 				}
 				return nil, errors.New("scripted transport error")
+			}
+			if cs.NoBody {
+				return &http.Response{StatusCode: 204, Status: "204 No Content", Proto: "HTTP/1.1", ProtoMajor: 1, ProtoMinor: 1,
+					Header: http.Header{"Content-Type": {"application/grpc"}}, Body: http.NoBody, ContentLength: 0, Request: r}, nil
 			}
 			return &http.Response{StatusCode: 200, Status: "200 OK", Proto: "HTTP/2.0", ProtoMajor: 2,
 				Header: http.Header{"Content-Type": {"application/grpc"}}, Body: io.NopCloser(respReader), ContentLength: -1, Request: r}, nil
